@@ -330,6 +330,24 @@ def r4_memo_by_value(ctx):
                 continue
             v = n.value
             src = v.args[0] if isinstance(v, ast.Call) and v.args else v
+            # the remembered attribute bound to the stored record itself
+            if tgt_self and ((isinstance(v, ast.Subscript)
+                              and facts.is_fp_receiver(v.value, al)
+                              and const_str(v.slice) in MEMO_KEYS)
+                             or (isinstance(v, ast.Call) and isinstance(
+                                 v.func, ast.Attribute)
+                                 and v.func.attr == "get"
+                                 and facts.is_fp_receiver(v.func.value, al)
+                                 and v.args and const_str(
+                                     v.args[0]) in MEMO_KEYS)):
+                n_inst += 1
+                ctx.fail(n, f"remember {norm(t)} = {norm(v)}",
+                         f"`{norm(t)}` is bound to the stored settings "
+                         "object itself: an in-place edit of the public "
+                         "attribute edits the record the skip-if-unchanged "
+                         "test compares with, the edited request equals "
+                         "'what was applied' and the pipeline is not run")
+                continue
             if not isinstance(src, ast.Name) or src.id not in need:
                 continue
             n_inst += 1
@@ -832,6 +850,50 @@ def r11_own_state(ctx):
                              "reported as applied)")
 
 
+def r12_declared_choices_enforced(ctx):
+    """A step that declares the admissible values of an option (`choices`
+    in its decorator) rejects every other value: an invalid request must
+    fail - and so never be remembered as applied - instead of being
+    treated as one of the valid ones."""
+    n = 0
+    for f, kws, d in facts.preprocessing_steps(ctx.repo):
+        opts = kws.get("options")
+        if not isinstance(opts, (list, tuple)):
+            continue
+        params = [a.arg for a in f.args.args + f.args.kwonlyargs]
+        for o in opts:
+            if not isinstance(o, dict) or not isinstance(
+                    o.get("choices"), (list, tuple)) or not all(
+                    isinstance(c, str) for c in o["choices"]):
+                continue
+            name = o.get("name")
+            if name not in params:
+                continue
+            n += 1
+            choices = list(o["choices"])
+            ok = False
+            for r in walk_no_nested(f, False):
+                if not isinstance(r, ast.Raise):
+                    continue
+                conds = conditions_at(r)
+                neg = {a.text for a in conds if not a.pol}
+                if all(f"{name} == '{c}'" in neg or f"'{c}' == {name}" in neg
+                       for c in choices) or any(
+                        (not a.pol) and a.text.replace(" ", "").startswith(
+                            f"{name}in") and all(repr(c) in a.text
+                                                 for c in choices)
+                        for a in conds):
+                    ok = True
+            ctx.check(ok, f, f"{kws.get('identifier')}: `{name}` outside "
+                      f"{choices} is rejected",
+                      f"step '{kws.get('identifier')}' declares the choices "
+                      f"{choices} for `{name}` but has no `raise` that is "
+                      "reached for every other value: an undefined value is "
+                      "processed as if it were one of them, and the invalid "
+                      "request is remembered and reported as applied")
+    ctx.floor("options with declared choices", n, 2)
+
+
 RULES = [
     ("C06-R1", "preproc.apply restarts from raw data on every path",
      r1_restart_from_raw),
@@ -855,4 +917,7 @@ RULES = [
     ("C06-R11", "a curve's remembered pipeline is its own object; the "
      "stored pipeline is written by apply_preprocessing only",
      r11_own_state),
+    ("C06-R12", "declared option choices are enforced (an undefined value "
+     "is rejected, not processed as a valid one)",
+     r12_declared_choices_enforced),
 ]
